@@ -51,8 +51,22 @@ func genWSMessages(t *sim.Tape, n int, thorough, inject bool, tag string) []wsMs
 	return out
 }
 
-// worldC11: one shimmed websocket session; both directions carry generated
-// message sequences with tape-chosen batching and timing.
+// c11Sess is one shimmed websocket session of the run.
+type c11Sess struct {
+	idx       int
+	cmsgs     []wsMsg
+	smsgs     []wsMsg
+	batches   [][]wsMsg
+	postPause []time.Duration
+	sendPause []time.Duration
+	mu        sync.Mutex
+	got       []wsMsg
+	problems  []string
+	polls408  int
+}
+
+// worldC11: one or two concurrent shimmed websocket sessions; both directions
+// carry generated message sequences with tape-chosen batching and timing.
 func worldC11(w *World) {
 	t := w.T
 	thorough := w.Tier == "thorough"
@@ -65,34 +79,42 @@ func worldC11(w *World) {
 	if thorough {
 		maxN = 120
 	}
-	nc := t.Range(0, maxN, "clientmsgs")
-	ns := t.Range(0, maxN, "servermsgs")
-	cmsgs := genWSMessages(t, nc, thorough, inject, "c")
-	smsgs := genWSMessages(t, ns, thorough, false, "s")
-	// batching of client messages into data posts
-	var batches [][]wsMsg
-	for i := 0; i < len(cmsgs); {
-		k := []int{1, 1, 2, 5, 11, 25}[t.Choice(6, "batch")]
-		if i+k > len(cmsgs) {
-			k = len(cmsgs) - i
+	nSess := t.Pick("sessions", 3, 2) + 1
+	pauses := []time.Duration{0, 0, time.Millisecond, 100 * time.Millisecond, 21 * time.Second}
+	sess := make([]*c11Sess, nSess)
+	for si := range sess {
+		ss := &c11Sess{idx: si}
+		nc := t.Range(0, maxN, "clientmsgs")
+		ns := t.Range(0, maxN, "servermsgs")
+		ss.cmsgs = genWSMessages(t, nc, thorough, inject, fmt.Sprintf("c%d", si))
+		ss.smsgs = genWSMessages(t, ns, thorough, false, fmt.Sprintf("s%d", si))
+		for i := 0; i < len(ss.cmsgs); {
+			k := []int{1, 1, 2, 5, 11, 25}[t.Choice(6, "batch")]
+			if i+k > len(ss.cmsgs) {
+				k = len(ss.cmsgs) - i
+			}
+			ss.batches = append(ss.batches, ss.cmsgs[i:i+k])
+			i += k
 		}
-		batches = append(batches, cmsgs[i:i+k])
-		i += k
-	}
-	postPause := make([]time.Duration, len(batches))
-	for i := range postPause {
-		postPause[i] = []time.Duration{0, 0, time.Millisecond, 100 * time.Millisecond, 21 * time.Second}[t.Pick("postpause", 4, 4, 2, 2, 1)]
-	}
-	sendPause := make([]time.Duration, len(smsgs))
-	for i := range sendPause {
-		sendPause[i] = []time.Duration{0, 0, time.Millisecond, 100 * time.Millisecond, 21 * time.Second}[t.Pick("sendpause", 6, 4, 2, 2, 1)]
+		for range ss.batches {
+			ss.postPause = append(ss.postPause, pauses[t.Pick("postpause", 4, 4, 2, 2, 1)])
+		}
+		for range ss.smsgs {
+			ss.sendPause = append(ss.sendPause, pauses[t.Pick("sendpause", 6, 4, 2, 2, 1)])
+		}
+		sess[si] = ss
 	}
 	startProxy(w)
 	wb := startWSBackend(w)
 	wb.OnOpen = func(s *wsSession) {
-		for i, m := range smsgs {
-			if sendPause[i] > 0 {
-				time.Sleep(sendPause[i])
+		var si int
+		if _, err := fmt.Sscanf(s.Path, "/sock%d", &si); err != nil || si < 0 || si >= nSess {
+			return
+		}
+		ss := sess[si]
+		for i, m := range ss.smsgs {
+			if ss.sendPause[i] > 0 {
+				time.Sleep(ss.sendPause[i])
 			}
 			if err := s.send(m); err != nil {
 				return
@@ -105,121 +127,122 @@ func worldC11(w *World) {
 	}
 	startAgent(w, args...)
 
-	var mu sync.Mutex
-	var got []wsMsg
-	var problems []string
-	polls408 := 0
 	effV := version
 	if effV < 0 {
 		effV = 0
 	}
-	done := make(chan struct{})
-	w.K.Spawn("browser", func() {
-		defer close(done)
-		sc := newShimClient(w, version)
-		sc.Extra = http.Header{"X-Inject-Me": {"injected-value"}, "X-Second": {"s1", "s2"}}
-		st, rep, raw, err := sc.open("ws://example.test/sock?x=1&y=%20z")
-		if err != nil || st != 200 || rep == nil {
-			problems = append(problems, fmt.Sprintf("open failed: status %d err %v body %q", st, err, raw))
-			return
-		}
-		if rep.V != effV {
-			problems = append(problems, fmt.Sprintf("open reply reports protocol version %d, requested %d", rep.V, version))
-		}
-		var wg sync.WaitGroup
-		wg.Add(2)
-		go func() { // the data loop: one post outstanding at a time
-			defer wg.Done()
-			for i, b := range batches {
-				if postPause[i] > 0 {
-					time.Sleep(postPause[i])
-				}
-				st, err := sc.data(rep.ID, effV, b)
-				if err != nil || st != 200 {
-					mu.Lock()
-					problems = append(problems, fmt.Sprintf("data post %d: status %d err %v", i, st, err))
-					mu.Unlock()
-					return
-				}
+	var all sync.WaitGroup
+	for _, ss := range sess {
+		ss := ss
+		all.Add(1)
+		w.K.Spawn(fmt.Sprintf("browser%d", ss.idx), func() {
+			defer all.Done()
+			problem := func(f string, a ...interface{}) {
+				ss.mu.Lock()
+				ss.problems = append(ss.problems, fmt.Sprintf(f, a...))
+				ss.mu.Unlock()
 			}
-		}()
-		go func() { // the poll loop: one poll outstanding at a time
-			defer wg.Done()
-			idle := 0
-			for {
-				mu.Lock()
-				n := len(got)
-				mu.Unlock()
-				if n >= len(smsgs) && idle >= 1 {
-					return
-				}
-				st, msgs, err := sc.poll(rep.ID, effV)
-				if err != nil {
-					mu.Lock()
-					problems = append(problems, "poll: "+err.Error())
-					mu.Unlock()
-					return
-				}
-				switch st {
-				case 200:
-					mu.Lock()
-					got = append(got, msgs...)
-					if len(got) > len(smsgs)+5 {
-						mu.Unlock()
+			sc := newShimClient(w, version)
+			sc.Extra = http.Header{"X-Inject-Me": {"injected-value"}, "X-Second": {"s1", "s2"}}
+			st, rep, raw, err := sc.open(fmt.Sprintf("ws://example.test/sock%d?x=1&y=%%20z", ss.idx))
+			if err != nil || st != 200 || rep == nil {
+				problem("open failed: status %d err %v body %q", st, err, raw)
+				return
+			}
+			if rep.V != effV {
+				problem("open reply reports protocol version %d, requested %d", rep.V, version)
+			}
+			var wg sync.WaitGroup
+			wg.Add(2)
+			go func() { // the data loop: one post outstanding at a time
+				defer wg.Done()
+				for i, b := range ss.batches {
+					if ss.postPause[i] > 0 {
+						time.Sleep(ss.postPause[i])
+					}
+					st, err := sc.data(rep.ID, effV, b)
+					if err != nil || st != 200 {
+						problem("data post %d: status %d err %v", i, st, err)
 						return
 					}
-					mu.Unlock()
-					idle = 0
-					if len(msgs) > 10 {
-						w.Probe("poll_returned_more_than_10")
-					}
-				case 408:
-					polls408++
-					idle++
-					if idle > 4 {
+				}
+			}()
+			go func() { // the poll loop: one poll outstanding at a time
+				defer wg.Done()
+				idle := 0
+				for {
+					ss.mu.Lock()
+					n := len(ss.got)
+					ss.mu.Unlock()
+					if n >= len(ss.smsgs) && idle >= 1 {
 						return
 					}
-				default:
-					mu.Lock()
-					problems = append(problems, fmt.Sprintf("poll: unexpected status %d", st))
-					mu.Unlock()
-					return
+					st, msgs, err := sc.poll(rep.ID, effV)
+					if err != nil {
+						problem("poll: %v", err)
+						return
+					}
+					switch st {
+					case 200:
+						ss.mu.Lock()
+						ss.got = append(ss.got, msgs...)
+						over := len(ss.got) > len(ss.smsgs)+5
+						ss.mu.Unlock()
+						if over {
+							return
+						}
+						idle = 0
+						if len(msgs) > 10 {
+							w.Probe("poll_returned_more_than_10")
+						}
+					case 408:
+						ss.mu.Lock()
+						ss.polls408++
+						ss.mu.Unlock()
+						idle++
+						if idle > 4 {
+							return
+						}
+					default:
+						problem("poll: unexpected status %d", st)
+						return
+					}
 				}
+			}()
+			wg.Wait()
+			// let the last client messages reach the backend, then close
+			time.Sleep(2 * time.Second)
+			if st, err := sc.close(rep.ID); err != nil || st != 200 {
+				problem("close: status %d err %v", st, err)
 			}
-		}()
-		wg.Wait()
-		// let the last client messages reach the backend, then close
-		time.Sleep(2 * time.Second)
-		if st, err := sc.close(rep.ID); err != nil || st != 200 {
-			problems = append(problems, fmt.Sprintf("close: status %d err %v", st, err))
-		}
-		time.Sleep(2 * time.Second)
-	})
+			time.Sleep(2 * time.Second)
+		})
+	}
 	w.K.Spawn("controller", func() {
-		<-done
+		all.Wait()
 		w.K.Stop()
 	})
 	w.K.Horizon = 3 * time.Hour
 	w.K.MaxSteps = 3000000
-	w.Sample = map[string]interface{}{"client_msgs": nc, "server_msgs": ns, "batches": len(batches), "version": version, "injection": inject}
+	w.Sample = map[string]interface{}{"sessions": nSess, "client_msgs": len(sess[0].cmsgs), "server_msgs": len(sess[0].smsgs), "batches": len(sess[0].batches), "version": version, "injection": inject}
 	w.OnCheck(func() {
 		for _, e := range w.K.Exits {
 			w.Violation("crash", "node %s exited: %s", e.Node, e.Msg)
 		}
-		for _, p := range problems {
-			w.Violation("shim-call", "a shim call of a well-behaved client failed | %s", p)
+		bad := false
+		for _, ss := range sess {
+			for _, p := range ss.problems {
+				w.Violation("shim-call", "a shim call of a well-behaved client failed | session %d: %s", ss.idx, p)
+				bad = true
+			}
 		}
-		if len(problems) > 0 {
+		if bad {
 			return
 		}
-		if len(wb.Sessions) != 1 {
-			w.Violation("session", "backend saw %d websocket connections for one shim session", len(wb.Sessions))
+		if len(wb.Sessions) != nSess {
+			w.Violation("session", "backend saw %d websocket connections for %d shim sessions", len(wb.Sessions), nSess)
 			return
 		}
-		s := wb.Sessions[0]
-		// server -> client
-		exp := make([]wsMsg, len(smsgs))
-		copy(exp, smsgs)
 		cmp := func(a, b []wsMsg, dir string) {
 			for i := 0; i < len(a) && i < len(b); i++ {
 				if a[i].Binary != b[i].Binary {
@@ -238,31 +261,45 @@ func worldC11(w *World) {
 				w.Violation("delivery", "%s: number of messages differs | sent %d received %d", dir, len(a), len(b))
 			}
 		}
-		cmp(exp, got, "server to client")
-		// client -> server
-		if !inject {
-			cmp(cmsgs, s.Recv, "client to server")
-		} else {
-			if len(cmsgs) != len(s.Recv) {
-				w.Violation("delivery", "client to server: number of messages differs | sent %d received %d", len(cmsgs), len(s.Recv))
+		for _, ss := range sess {
+			var s *wsSession
+			for _, x := range wb.Sessions {
+				if strings.HasPrefix(x.Path, fmt.Sprintf("/sock%d?", ss.idx)) {
+					s = x
+				}
 			}
-			for i := 0; i < len(cmsgs) && i < len(s.Recv); i++ {
-				checkInjected(w, i, cmsgs[i], s.Recv[i], effV)
+			if s == nil {
+				w.Violation("session", "no backend websocket for session %d", ss.idx)
+				continue
+			}
+			cmp(ss.smsgs, ss.got, "server to client")
+			if !inject {
+				cmp(ss.cmsgs, s.Recv, "client to server")
+			} else {
+				if len(ss.cmsgs) != len(s.Recv) {
+					w.Violation("delivery", "client to server: number of messages differs | sent %d received %d", len(ss.cmsgs), len(s.Recv))
+				}
+				for i := 0; i < len(ss.cmsgs) && i < len(s.Recv); i++ {
+					checkInjected(w, i, ss.cmsgs[i], s.Recv[i], effV)
+				}
+			}
+			if !s.Closed {
+				w.Violation("close", "the backend websocket was not closed after the client closed the shim session")
+			}
+			if ss.polls408 > 0 {
+				w.Probe("idle_poll_408")
+			}
+			for _, b := range ss.batches {
+				if len(b) > 10 {
+					w.Probe("data_post_more_than_10")
+				}
+			}
+			if len(ss.cmsgs) > 0 && len(ss.smsgs) > 0 {
+				w.Probe("both_directions")
 			}
 		}
-		if !s.Closed {
-			w.Violation("close", "the backend websocket was not closed after the client closed the shim session")
-		}
-		if polls408 > 0 {
-			w.Probe("idle_poll_408")
-		}
-		for _, b := range batches {
-			if len(b) > 10 {
-				w.Probe("data_post_more_than_10")
-			}
-		}
-		if len(cmsgs) > 0 && len(smsgs) > 0 {
-			w.Probe("both_directions")
+		if nSess > 1 {
+			w.Probe("concurrent_sessions")
 		}
 	})
 }
